@@ -90,6 +90,10 @@ def case(arg):
         def fail(cl, det):
             res["fail"] = (cl, f"[{kn}] op {i} {op}: {det}")
             return res
+        if kn.startswith("bal:") and rng.random() < 0.08:
+            # the strategy of a BalancingLearner may be switched at any time (the caches are shared by the strategies)
+            l.strategy = rng.choice(["loss_improvements", "loss", "npoints", "cycle"])
+            bump("strategy_switch")
         if b == "integ" and rng.random() < 0.03:
             # an in-domain point never suggested by the learner: an abscissa of one of its intervals that has not been handed
             # out yet (a foreign abscissa is rejected - C07)
